@@ -71,6 +71,9 @@ def specLabel (s : G) : Label → SpecLabel
   | .lsLookup k => match s.pool k with
     | none => .store k s.nextVal
     | some _ => .join k
+  | .lspLookup k => match s.pool k with
+    | none => .store k s.nextVal
+    | some _ => .join k
   | .del1 k _ => .release k
   | _ => .tau
 
